@@ -28,6 +28,7 @@ type LoopSpec struct {
 // FuncContract is the contract of one function.
 type FuncContract struct {
 	Key      string // canonical key (ssa RelString(nil) of the origin function)
+	Base     string // for variants: the function's key
 	Pkg      string // package path where the contract was written ("" for extern file)
 	Extern   bool   // trusted, never verified
 	Props    []string
@@ -192,6 +193,23 @@ func (db *ContractDB) loadContractFile(path, pkgPath string) error {
 				continue
 			}
 			cur = &FuncContract{Key: key, Pkg: pkgPath, Extern: kw == "extern", Loops: map[int]*LoopSpec{}, Asserts: map[string][]Clause{}, Src: src}
+			db.Funcs[key] = cur
+		case "variant":
+			// a second, separately verified contract of the same function (own focus / ensures)
+			if cur == nil {
+				return fail("no function")
+			}
+			v := strings.TrimSpace(rest)
+			base := cur.Key
+			if cur.Base != "" {
+				base = cur.Base
+			}
+			key := base + "#" + v
+			if db.Funcs[key] != nil {
+				cur = db.Funcs[key]
+				continue
+			}
+			cur = &FuncContract{Key: key, Base: base, Pkg: pkgPath, Loops: map[int]*LoopSpec{}, Asserts: map[string][]Clause{}, Src: src}
 			db.Funcs[key] = cur
 		case "prop":
 			if cur == nil {
